@@ -1,0 +1,208 @@
+//go:build verif
+
+// Verification hooks for the command table, key extraction and the ACL (build tag "verif").
+// This file only adds code: it is not compiled unless the tag is given.
+
+package sugardb
+
+import (
+	"encoding/hex"
+	"fmt"
+	"net"
+	"sort"
+	"strings"
+	"time"
+	"unsafe"
+
+	"github.com/echovault/sugardb/internal"
+	"github.com/echovault/sugardb/internal/modules/acl"
+	"github.com/echovault/sugardb/internal/modules/set"
+	"github.com/echovault/sugardb/internal/modules/sorted_set"
+)
+
+// VerifCmdRow is one registered command (Sub == "") or sub-command.
+type VerifCmdRow struct {
+	Name       string
+	Sub        string
+	Module     string
+	Categories []string
+	Sync       bool
+	HasSub     bool
+	HasHandler bool
+}
+
+// VerifCommandTable lists every registered command and sub-command in registration order.
+func (server *SugarDB) VerifCommandTable() []VerifCmdRow {
+	var rows []VerifCmdRow
+	for _, c := range server.getCommands() {
+		rows = append(rows, VerifCmdRow{Name: c.Command, Module: c.Module, Categories: append([]string{}, c.Categories...),
+			Sync: c.Sync, HasSub: len(c.SubCommands) > 0, HasHandler: c.HandlerFunc != nil})
+		for _, s := range c.SubCommands {
+			rows = append(rows, VerifCmdRow{Name: c.Command, Sub: s.Command, Module: s.Module,
+				Categories: append([]string{}, s.Categories...), Sync: s.Sync, HasHandler: s.HandlerFunc != nil})
+		}
+	}
+	return rows
+}
+
+// VerifKeyExtract runs the KeyExtractionFunc of a command (sub == "") or sub-command on argv.
+// status: "ok", "err", "panic", "none" (no such command / no function).
+func (server *SugarDB) VerifKeyExtract(name, sub string, argv []string) (channels, read, write []string, status string) {
+	defer func() {
+		if r := recover(); r != nil {
+			status = "panic"
+		}
+	}()
+	for _, c := range server.getCommands() {
+		if c.Command != name {
+			continue
+		}
+		f := c.KeyExtractionFunc
+		if sub != "" {
+			f = nil
+			for _, s := range c.SubCommands {
+				if s.Command == sub {
+					f = s.KeyExtractionFunc
+				}
+			}
+		}
+		if f == nil {
+			return nil, nil, nil, "none"
+		}
+		res, err := f(append([]string{}, argv...))
+		if err != nil {
+			return nil, nil, nil, "err"
+		}
+		return res.Channels, res.ReadKeys, res.WriteKeys, "ok"
+	}
+	return nil, nil, nil, "none"
+}
+
+// VerifAuthorize takes the decision of the dispatcher's authorization gate for argv on conn without
+// running the command: the same lookups as handleCommand, then AuthorizeConnection.
+// "allow", "deny", "nocmd" (rejected before the gate), "panic".
+func (server *SugarDB) VerifAuthorize(conn *net.Conn, argv []string) (decision string) {
+	defer func() {
+		if r := recover(); r != nil {
+			decision = "panic"
+		}
+	}()
+	if len(argv) == 0 {
+		return "nocmd"
+	}
+	command, err := server.getCommand(argv[0])
+	if err != nil {
+		return "nocmd"
+	}
+	sc, err := internal.GetSubCommand(command, argv)
+	if err != nil {
+		return "nocmd"
+	}
+	subCommand, _ := sc.(internal.SubCommand)
+	if conn != nil && server.acl != nil {
+		if err = server.acl.AuthorizeConnection(conn, argv, command, subCommand); err != nil {
+			return "deny"
+		}
+	}
+	return "allow"
+}
+
+func verifSortedHex(l []string) string {
+	c := make([]string, len(l))
+	for i, s := range l {
+		if s == "" {
+			c[i] = "-"
+		} else {
+			c[i] = hex.EncodeToString([]byte(s))
+		}
+	}
+	sort.Strings(c)
+	return strings.Join(c, ",")
+}
+
+func verifB(b bool) string {
+	if b {
+		return "1"
+	}
+	return "0"
+}
+
+func verifUser(u *acl.User) string {
+	pw := make([]string, len(u.Passwords))
+	for i, p := range u.Passwords {
+		pw[i] = p.PasswordType + ":" + verifHex(p.PasswordValue)
+	}
+	sort.Strings(pw)
+	return fmt.Sprintf("%s{on=%s nopass=%s nokeys=%s pw=[%s] ic=[%s] xc=[%s] im=[%s] xm=[%s] rk=[%s] wk=[%s] ip=[%s] xp=[%s]}",
+		verifHex(u.Username), verifB(u.Enabled), verifB(u.NoPassword), verifB(u.NoKeys), strings.Join(pw, ","),
+		verifSortedHex(u.IncludedCategories), verifSortedHex(u.ExcludedCategories),
+		verifSortedHex(u.IncludedCommands), verifSortedHex(u.ExcludedCommands),
+		verifSortedHex(u.IncludedReadKeys), verifSortedHex(u.IncludedWriteKeys),
+		verifSortedHex(u.IncludedPubSubChannels), verifSortedHex(u.ExcludedPubSubChannels))
+}
+
+// VerifAclDigest renders the ACL state canonically: the users in table order (rule lists as sorted
+// sets, passwords as a sorted multiset), then the connections given (in the caller's order) with
+// their authenticated flag, user name, whether the user record they hold is the one in the table
+// ("L") or an orphan ("O"), and the database / protocol / name of the connection.
+func (server *SugarDB) VerifAclDigest(conns []*net.Conn) string {
+	var sb strings.Builder
+	server.acl.RLockUsers()
+	sb.WriteString("users[")
+	for i, u := range server.acl.Users {
+		if i > 0 {
+			sb.WriteString(" ")
+		}
+		sb.WriteString(verifUser(u))
+	}
+	sb.WriteString("] conns[")
+	for i, c := range conns {
+		if i > 0 {
+			sb.WriteString(" ")
+		}
+		rec, ok := server.acl.Connections[c]
+		if !ok || rec.User == nil {
+			sb.WriteString("?")
+			continue
+		}
+		live := "O"
+		for _, u := range server.acl.Users {
+			if u == rec.User {
+				live = "L"
+			}
+		}
+		server.connInfo.mut.RLock()
+		ci := server.connInfo.tcpClients[c]
+		server.connInfo.mut.RUnlock()
+		fmt.Fprintf(&sb, "%s:%s:%s:db%d:p%d:%s", verifB(rec.Authenticated), verifHex(rec.User.Username), live,
+			ci.Database, ci.Protocol, verifHex(ci.Name))
+		if live == "O" {
+			sb.WriteString(":" + verifUser(rec.User))
+		}
+	}
+	sb.WriteString("]")
+	server.acl.RUnlockUsers()
+	return sb.String()
+}
+
+// VerifSizes reports the unsafe.Sizeof figures that KeyData.GetMem, Set.GetMem and SortedSet.GetMem add up.
+func VerifSizes() map[string]int {
+	var s string
+	var i int
+	var f float64
+	var m map[string]interface{}
+	var e interface{}
+	var p *set.Set
+	var sm map[string]interface{}
+	return map[string]int{
+		"time":   int(unsafe.Sizeof(time.Time{})),
+		"string": int(unsafe.Sizeof(s)),
+		"int":    int(unsafe.Sizeof(i)),
+		"float":  int(unsafe.Sizeof(f)),
+		"map":    int(unsafe.Sizeof(m)),
+		"iface":  int(unsafe.Sizeof(e)),
+		"ptr":    int(unsafe.Sizeof(p)),
+		"setmap": int(unsafe.Sizeof(sm)),
+		"member": int(unsafe.Sizeof(sorted_set.MemberObject{})),
+	}
+}
